@@ -629,32 +629,75 @@ theorem dedupNat_nodup (l : List Nat) : (dedupNat l).Nodup := by
 
 theorem sortLangs_perm (l : List Nat) : (sortLangs l).Perm (dedupNat l) := isort_perm _ _
 
-theorem sortLangs_strict (l : List Nat) : (sortLangs l).Pairwise (fun a b => a < b) := by
-  have hs : (sortLangs l).Pairwise (fun a b => decide (a ≤ b) = true) :=
-    isort_pairwise (fun (a b : Nat) => decide (a ≤ b))
-      (fun a b c h1 h2 => by simp only [decide_eq_true_eq] at *; omega)
-      (fun a b => by simp only [Bool.or_eq_true, decide_eq_true_eq]; omega) (dedupNat l)
-  have hn : (sortLangs l).Nodup := (sortLangs_perm l).symm.nodup (dedupNat_nodup l)
-  have hd : (sortLangs l).Pairwise (fun a b => a ≠ b) := hn
-  refine (hs.and hd).imp ?_
-  intro a b ⟨h1, h2⟩
-  simp only [decide_eq_true_eq] at h1
-  omega
+theorem ltLang_strictTotal : StrictTotal ltLang := by
+  refine ⟨?_, ?_, ?_⟩
+  · intro a; simp [ltLang]
+  · intro a b c h1 h2
+    by_cases ha : a = 0 <;> by_cases hb : b = 0 <;> by_cases hc : c = 0 <;>
+      simp [ltLang, ha, hb, hc] at h1 h2 ⊢ <;> omega
+  · intro a b h1 h2
+    by_cases ha : a = 0 <;> by_cases hb : b = 0 <;> simp [ltLang, ha, hb] at h1 h2 ⊢ <;> omega
 
-theorem view_key_small (l : Nat) (h1 : 1 ≤ l) (h2 : l < 24) (cm : CostModel) : (view l cm).1 = [UInt8.ofNat l] := by
-  have : l ≠ 0 := by omega
-  simp [view, this, viewVn, encode, head, h2]
+/-- the emitted languages are strictly increasing in the order "ids ≥ 1 ascending, then 0" -/
+theorem sortLangs_strict (l : List Nat) : (sortLangs l).Pairwise (fun a b => ltLang a b = true) :=
+  sortBy_strict ltLang id ltLang_strictTotal (dedupNat l) (by simpa using dedupNat_nodup l)
+
+/-- the encoded key of a language view, for language ids below 256 -/
+def viewKey (l : Nat) : Bytes :=
+  if l = 0 then [0x41, 0x00] else if l < 24 then [UInt8.ofNat l] else [0x18, UInt8.ofNat l]
+
+theorem view_key (l : Nat) (h : l < 256) (cm : CostModel) : (view l cm).1 = viewKey l := by
+  unfold viewKey view
+  by_cases h0 : l = 0
+  · simp [h0, viewV1]
+  · by_cases h1 : l < 24
+    · simp [h0, h1, viewVn, encode, head]
+    · have h2 : l < 256 := h
+      simp [h0, h1, h2, viewVn, encode, head, beBytes, Nat.mod_eq_of_lt h2]
 
 theorem u8_ofNat_lt (a b : Nat) (ha : a < 256) (hb : b < 256) : (UInt8.ofNat a < UInt8.ofNat b) ↔ a < b := by
   rw [UInt8.lt_iff_toNat_lt]
   simp [UInt8.toNat_ofNat, Nat.mod_eq_of_lt ha, Nat.mod_eq_of_lt hb]
 
-/-- without Plutus V1 the ascending language ids are already the canonical key order -/
-theorem langViews_canonical_noV1 (langs : List Nat) (pp : Nat → CostModel) (h : ∀ l ∈ langs, 1 ≤ l ∧ l < 24) :
+theorem u8_ofNat_inj (a b : Nat) (ha : a < 256) (hb : b < 256) (h : UInt8.ofNat a = UInt8.ofNat b) : a = b := by
+  have h3 := congrArg UInt8.toNat h
+  simp at h3
+  omega
+
+theorem viewKey_inj (a b : Nat) (ha : a < 256) (hb : b < 256) (h : viewKey a = viewKey b) : a = b := by
+  unfold viewKey at h
+  by_cases a0 : a = 0 <;> by_cases b0 : b = 0 <;> by_cases a1 : a < 24 <;> by_cases b1 : b < 24 <;>
+    simp [a0, b0, a1, b1] at h <;> first
+      | omega
+      | exact u8_ofNat_inj a b ha hb h
+      | (exfalso
+         first
+           | (have := u8_ofNat_inj 24 a (by omega) ha (by simpa using h.1); omega)
+           | (have := u8_ofNat_inj 24 b (by omega) hb (by simpa using h.1.symm); omega)
+           | (have := u8_ofNat_inj a 0x41 ha (by omega) (by simpa using h); omega))
+
+/-- the iteration order of the repaired code is the canonical (shortest first, then bytewise) order of the keys -/
+theorem viewKey_order (a b : Nat) (ha : a < 256) (hb : b < 256) (h : ltLang a b = true) :
+    lenLexLe (viewKey a) (viewKey b) = true := by
+  unfold viewKey
+  have e1 := u8_ofNat_lt b a hb ha
+  have e2 : ¬ ((0x41 : UInt8) < 0x18) := by decide
+  by_cases a0 : a = 0 <;> by_cases b0 : b = 0 <;> by_cases a1 : a < 24 <;> by_cases b1 : b < 24 <;>
+    simp [ltLang, a0, b0, a1, b1] at h ⊢ <;>
+    simp [lenLexLe, bytesLe, bytesLt, u8_lt_irrefl] <;> (try omega) <;>
+    (try (intro h'; exact absurd (e1.1 h') (by omega))) <;>
+    (try (rw [UInt8.le_iff_toNat_le]; simp [Nat.mod_eq_of_lt ha, Nat.mod_eq_of_lt hb]; omega))
+
+/-- **the language views are canonical**: for every set of language ids below 256 (the ledger has 0, 1, 2) the bytes
+the model emits are the specification's canonical language views -/
+theorem langViews_canonical (langs : List Nat) (pp : Nat → CostModel) (h : ∀ l ∈ langs, l < 256)
+    (hn : 0 ∈ langs → ((pp 0).map (·.1)).Nodup) :
     langViews langs pp = languageViews (dedupNat langs) pp := by
   unfold langViews languageViews
-  have hmem : ∀ l ∈ sortLangs langs, 1 ≤ l ∧ l < 24 := fun l hl =>
-    h l ((mem_dedupNat l langs).1 ((sortLangs_perm langs).subset hl))
+  have hmem : ∀ l ∈ sortLangs langs, l ∈ langs := fun l hl =>
+    (mem_dedupNat l langs).1 ((sortLangs_perm langs).subset hl)
+  have hview : ∀ l ∈ langs, viewEntry l (pp l) = view l (pp l) := fun l hl =>
+    viewEntry_eq_view l _ (fun e => by subst e; exact hn hl)
   have key : isort shortLexLe ((dedupNat langs).map fun l => view l (pp l))
       = (sortLangs langs).map fun l => viewEntry l (pp l) := by
     apply isort_eq_of_sorted_perm shortLexLe shortLexLe_total shortLexLe_trans
@@ -665,46 +708,24 @@ theorem langViews_canonical_noV1 (langs : List Nat) (pp : Nat → CostModel) (h 
       obtain ⟨lb, hlb, rfl⟩ := List.mem_map.1 hb
       have ra := h la ((mem_dedupNat la langs).1 hla)
       have rb := h lb ((mem_dedupNat lb langs).1 hlb)
-      rw [view_key_small la ra.1 ra.2, view_key_small lb rb.1 rb.2] at e
-      simp only [List.cons.injEq, and_true] at e
-      have h3 := congrArg UInt8.toNat e
-      simp at h3
-      have : la = lb := by omega
-      rw [this]
+      rw [view_key la ra, view_key lb rb] at e
+      rw [viewKey_inj la lb ra rb e]
     · rw [List.pairwise_map]
       refine (sortLangs_strict langs).imp_of_mem ?_
       intro a b ha hb hab
-      have ra := hmem a ha
-      have rb := hmem b hb
-      have na : a ≠ 0 := by omega
-      have nb : b ≠ 0 := by omega
-      rw [shortLexLe_eq, viewEntry_eq_view a _ (fun e => absurd e na), viewEntry_eq_view b _ (fun e => absurd e nb),
-        view_key_small a ra.1 ra.2, view_key_small b rb.1 rb.2]
-      have : ¬ (UInt8.ofNat b < UInt8.ofNat a) := by
-        rw [u8_ofNat_lt b a (by omega) (by omega)]; omega
-      simp [lenLexLe, bytesLe, bytesLt, this]
+      have ma := hmem a ha
+      have mb := hmem b hb
+      rw [shortLexLe_eq, hview a ma, hview b mb, view_key a (h a ma), view_key b (h b mb)]
+      exact viewKey_order a b (h a ma) (h b mb) hab
     · have h1 : ((sortLangs langs).map fun l => viewEntry l (pp l))
           = (sortLangs langs).map fun l => view l (pp l) := by
         apply List.map_congr_left
         intro l hl
-        have := hmem l hl
-        exact viewEntry_eq_view l _ (fun e => by omega)
+        exact hview l (hmem l hl)
       rw [h1]
       exact (sortLangs_perm langs).map _
   rw [key]
   simp [List.flatMap_map]
-
-/-- a single language: nothing to order -/
-theorem langViews_canonical_single (langs : List Nat) (pp : Nat → CostModel) (h : (dedupNat langs).length ≤ 1)
-    (hn : 0 ∈ langs → ((pp 0).map (·.1)).Nodup) :
-    langViews langs pp = languageViews (dedupNat langs) pp := by
-  unfold langViews languageViews sortLangs
-  match hd : dedupNat langs, h with
-  | [], _ => simp [isort]
-  | [l], _ =>
-    have hl : l ∈ langs := (mem_dedupNat l langs).1 (by rw [hd]; simp)
-    have := viewEntry_eq_view l (pp l) (fun e => by subst e; exact hn hl)
-    simp [isort, insertBy, this]
 
 /-! ## the calls made on the builder -/
 
@@ -1306,5 +1327,35 @@ theorem build_steps (net : Nat) (st st' : St) (sel : List TxIn) (ev : Nat → Na
   split at h
   · rename_i st1 h1; exact ⟨st1, h1, h⟩
   · simp at h
+
+/-! ## what the body shows of the inputs and of the mint -/
+
+theorem bodyInputs_of_nodup (l : List TxIn) (hn : l.Nodup) : bodyInputs l = l := by
+  induction l with
+  | nil => rfl
+  | cons x xs ih =>
+    rw [List.nodup_cons] at hn
+    simp only [bodyInputs, ih hn.2, List.cons.injEq, true_and]
+    rw [List.filter_eq_self]
+    intro y hy
+    simp only [bne_iff_ne, ne_eq]
+    intro e; rw [e] at hy; exact hn.1 hy
+
+theorem multiAsset_normalize_of_normal (m : MultiAsset) (h : MultiAsset.Normal m) : MultiAsset.normalize m = m := by
+  unfold MultiAsset.normalize
+  induction m with
+  | nil => rfl
+  | cons p r ih =>
+    have hp := h p (by simp)
+    have hr : MultiAsset.Normal r := fun q hq => h q (List.mem_cons_of_mem _ hq)
+    have e : Asset.normalize p.2 = p.2 := Asset.normalize_of_normal _ hp.2
+    have ne : p.2.isEmpty = false := by cases hx : p.2 with
+      | nil => exact absurd hx hp.1
+      | cons _ _ => rfl
+    simp only [List.map_cons, List.filter_cons, e, ne, Bool.not_false, if_true]
+    rw [ih hr]
+
+theorem bodyPolicies_of_normal (m : MultiAsset) (h : MultiAsset.Normal m) : bodyPolicies m = Dict.keys m := by
+  unfold bodyPolicies; rw [multiAsset_normalize_of_normal m h]
 
 end Pyc.Rd
